@@ -32,7 +32,7 @@ Last(sq) == IF Len(sq) = 0 THEN "none" ELSE sq[Len(sq)]
 
 \* parked gates as tuples << g, c, p, x, y >>
 SpecParked ==
-  { << "cmd", a[1], a[2], Head(cmdq[a]).t, 99 >> : a \in { b \in A : CmdGate(b) /\ Head(cmdq[b]).t \notin {"MsgBad", "MsgEarly"} } }
+  { << "cmd", a[1], a[2], Head(cmdq[a]).t, 99 >> : a \in { b \in A : CmdGate(b) /\ Head(cmdq[b]).t \notin {"MsgBad", "MsgEarly", "MsgSelf"} } }
   \cup { << "rpc", r.c, r.from, r.k, r.to >> : r \in { x \in rpc : x.st = "parked" } }
   \cup { << "acq", a[1], a[2], "", 99 >> : a \in { b \in A : hpc[b].pc = "acq_gate" } }
   \cup { << "ctask", a[1], a[2], "", 99 >> : a \in { b \in A : ctask[b].st = "gate" } }
@@ -65,7 +65,7 @@ ObsOk(o) ==
   /\ SpecParked = ObsParked(o)
 
 \* stray MPC messages pass the driver's command gate without being parked
-AutoCmd == \E a \in A : CmdGate(a) /\ Head(cmdq[a]).t \in {"MsgBad", "MsgEarly"} /\ DoCmd(a)
+AutoCmd == \E a \in A : CmdGate(a) /\ Head(cmdq[a]).t \in {"MsgBad", "MsgEarly", "MsgSelf"} /\ DoCmd(a)
 
 Silent == (Internal \/ AutoCmd) /\ UNCHANGED l
 
